@@ -304,7 +304,7 @@ func (x *Exec) evalBinary(s *State, e *ast.BinaryExpr) *Value {
 			return prim(App("float.cmp_"+e.Op.String(), SBool, l.T, r.T), bt)
 		}
 		if l.K != KPrim || r.K != KPrim {
-			x.fail(e.Pos(), "comparison of non-primitive values")
+			x.fail(e.Pos(), "comparison of non-primitive values (%s of %v, %s of %v)", l.K, l.Typ, r.K, r.Typ)
 		}
 		switch e.Op {
 		case token.LSS:
